@@ -178,9 +178,73 @@ def unit_sparse(tier, pat):
     return ck
 
 
+def unit_sparsevec(tier, n, cap):
+    """sparse-vector combination utilities with SYMBOLIC index patterns (counts and ascending indices are free): mju_combineSparseCount, mju_combineSparseInc, mju_addToSclSparseInc"""
+    from vf import llsym, world as W
+    from vf.irparse import IntT, FpT
+    ck = Checker('sparsevec_n%d_cap%d' % (n, cap), tier, timeout_s=120, semantics='real')
+    I = lambda v: z3.BitVecVal(v, 32)
+    def world():
+        w = W.World('real')
+        do, dv = w.arr('dst', 'f64', cap); so_, sv = w.arr('src', 'f64', cap); dio, di = w.arr('dst_ind', 'i32', cap); sio, si = w.arr('src_ind', 'i32', cap)
+        dn = z3.BitVec('dst_nnz', 32); sn = z3.BitVec('src_nnz', 32); a = z3.Real('a'); b = z3.Real('b')
+        w.syms += [('dst_nnz', 'i32', dn), ('src_nnz', 'i32', sn), ('a', 'f64', a), ('b', 'f64', b)]
+        pre = [dn >= 0, dn <= cap, sn >= 0, sn <= cap]
+        for ind in (di, si):
+            pre += [z3.And(x >= 0, x < n) for x in ind] + [ind[k] < ind[k + 1] for k in range(cap - 1)]
+        return w, (do, dv), (so_, sv), (dio, di), (sio, si), dn, sn, a, b, pre
+    def src_at(sv, si, sn, idx):
+        out = z3.RealVal(0)
+        for k in range(cap): out = z3.If(z3.And(sn > k, si[k] == idx), sv[k], out)
+        return out
+    def present(si, sn, idx): return z3.Or(*[z3.And(sn > k, si[k] == idx) for k in range(cap)])
+    # --- combineSparseInc: dst = a*dst + b*src at common indices (entries of src outside dst's pattern are dropped)
+    w, (do, dv), (so_, sv), (dio, di), (sio, si), dn, sn, a, b, pre = world()
+    ex = llsym.Exec(mod(), fpmode='real', loop_bound=4 * cap + 8); st = w.to_state(ex); st.pc += pre
+    res = ex.run('@mju_combineSparseInc', [w.P(do), w.P(so_), I(n), a, b, dn, sn, w.P(dio), w.P(sio)], st); ck.note_results(ex, res)
+    args = [('ptr', (do, 0)), ('ptr', (so_, 0)), ('i32', n), ('f64', a), ('f64', b), ('i32', dn), ('i32', sn), ('ptr', (dio, 0)), ('ptr', (sio, 0))]
+    dec = lambda mdl: {'dst_nnz': W.evalnum(mdl, dn), 'src_nnz': W.evalnum(mdl, sn), 'dst_ind': [W.evalnum(mdl, x) for x in di], 'src_ind': [W.evalnum(mdl, x) for x in si], 'a': str(W.evalnum(mdl, a)), 'b': str(W.evalnum(mdl, b))}
+    for r in res:
+        if r.kind != 'return': continue
+        out = [ex.load(r.state, w.P(do, 8 * k), FpT('double')) for k in range(cap)]
+        rp = W.make_replay(so(), 'mju_combineSparseInc', w, args, outputs=[('dst%d' % k, do, 8 * k, 'f64', out[k]) for k in range(cap)], semantics='real')
+        ck.prove('combineSparseInc: dst[k] = a*dst[k] + b*src[entry with the same index, 0 if absent] for k < dst_nnz, untouched beyond', r.state.pc,
+                 z3.And(*[out[k] == z3.If(dn > k, a * dv[k] + b * src_at(sv, si, sn, di[k]), dv[k]) for k in range(cap)]), site='mju_combineSparseInc:value', decode=dec, replay=rp)
+    ck.reach('different patterns with a common index', pre + [dn == 2, sn == 2, di[0] == si[1], di[1] != si[0]])
+    ck.memory_obligations(res, decode=dec)
+    # --- combineSparseCount
+    w, (do, dv), (so_, sv), (dio, di), (sio, si), dn, sn, a, b, pre = world()
+    ex = llsym.Exec(mod(), fpmode='real', loop_bound=4 * cap + 8); st = w.to_state(ex); st.pc += pre
+    res = ex.run('@mju_combineSparseCount', [dn, sn, w.P(dio), w.P(sio)], st); ck.note_results(ex, res)
+    args = [('i32', dn), ('i32', sn), ('ptr', (dio, 0)), ('ptr', (sio, 0))]
+    dec = lambda mdl: {'a_nnz': W.evalnum(mdl, dn), 'b_nnz': W.evalnum(mdl, sn), 'a_ind': [W.evalnum(mdl, x) for x in di], 'b_ind': [W.evalnum(mdl, x) for x in si]}
+    union = sum([z3.If(z3.Or(present(di, dn, j), present(si, sn, j)), 1, 0) for j in range(n)], z3.IntVal(0))
+    for r in res:
+        if r.kind != 'return': continue
+        rp = W.make_replay(so(), 'mju_combineSparseCount', w, args, restype='i32', ret_term=r.value)
+        ck.prove('combineSparseCount = size of the union of the two index sets', r.state.pc, z3.BV2Int(r.value) == union, site='mju_combineSparseCount:union', decode=dec, replay=rp)
+    ck.memory_obligations(res, decode=dec)
+    # --- addToSclSparseInc
+    w, (do, dv), (so_, sv), (dio, di), (sio, si), dn, sn, a, b, pre = world()
+    ex = llsym.Exec(mod(), fpmode='real', loop_bound=4 * cap + 8); st = w.to_state(ex); st.pc += pre
+    res = ex.run('@mju_addToSclSparseInc', [w.P(do), w.P(so_), dn, w.P(dio), sn, w.P(sio), a], st); ck.note_results(ex, res)
+    args = [('ptr', (do, 0)), ('ptr', (so_, 0)), ('i32', dn), ('ptr', (dio, 0)), ('i32', sn), ('ptr', (sio, 0)), ('f64', a)]
+    dec = lambda mdl: {'nnzdst': W.evalnum(mdl, dn), 'nnzsrc': W.evalnum(mdl, sn), 'inddst': [W.evalnum(mdl, x) for x in di], 'indsrc': [W.evalnum(mdl, x) for x in si]}
+    for r in res:
+        if r.kind != 'return': continue
+        out = [ex.load(r.state, w.P(do, 8 * k), FpT('double')) for k in range(cap)]
+        rp = W.make_replay(so(), 'mju_addToSclSparseInc', w, args, outputs=[('dst%d' % k, do, 8 * k, 'f64', out[k]) for k in range(cap)], semantics='real')
+        ck.prove('addToSclSparseInc: dst[k] += scl*src[entry with the same index] for k < nnzdst, untouched otherwise', r.state.pc,
+                 z3.And(*[out[k] == z3.If(dn > k, dv[k] + a * src_at(sv, si, sn, di[k]), dv[k]) for k in range(cap)]), site='mju_addToSclSparseInc:value', decode=dec, replay=rp)
+    ck.memory_obligations(res, decode=dec)
+    return ck
+
+
 def units(tier):
     u = [('chol_n1', 'unit_chol', {'n': 1}), ('chol_n2', 'unit_chol', {'n': 2}), ('solve3', 'unit_solve3', {})]
     for nt in ([2, 3, 4] if tier == 'quick' else [2, 3, 4, 5]): u.append(('band_n%d' % nt, 'unit_band', {'ntotal': nt}))
     for p in PATTERNS: u.append(('sparse_' + p, 'unit_sparse', {'pat': p}))
+    u.append(('sparsevec_n4_cap2', 'unit_sparsevec', {'n': 4, 'cap': 2}))
+    if tier == 'thorough': u.append(('sparsevec_n5_cap3', 'unit_sparsevec', {'n': 5, 'cap': 3}))
     if tier == 'thorough': u.append(('chol_n3', 'unit_chol', {'n': 3}, 2000))
     return u
